@@ -483,6 +483,11 @@ def c09(tier, seed):
         extra_cov["late_tick_emulation"] = "strace fault injection on read(2) active in %d runs" % sum(1 for r in runs if r.tag == "late-ticks")
     else:
         extra_cov["late_tick_emulation"] = "skipped: strace/ptrace not available in this environment"
+    # arguments at the edges of their types: one-second-class requests around the micro/nanosecond carries (judged by duration) and
+    # requests of hours up to 2^32-1 seconds (any return is early; still asleep when the process ends)
+    for thr in ((4,) if q else (1, 4, 16)):
+        k += 1
+        runs.append(fb("h_sleep", "mon", "sleep", seed, k, thr, mode="monitor", trials=2, boundary=1, livelock_prop="C09"))
     for thr in ((2, 8) if q else (1, 4, 16)):
         k += 1
         runs.append(fb("h_sleep", "asan", "sleep", seed, k, thr, mode="jitter", trials=6 if q else 30, livelock_prop="C09"))
@@ -501,7 +506,8 @@ def c09(tier, seed):
                 "one registration and one sleep wake-up per call (ghost), ticker progress on the same thread, ghost/ASan for the sleeper nodes, "
                 "quiescence/livelock for sleepers never resumed.",
                 min_events={"sleep_calls": 500, "sleep_same_tick_cohort_fibers": 10, "sleep_after_cpu_bound_phase": 1,
-                            "sleep_with_every_thread_busy_yielding": 1, "sleep_then_exit_immediately": 10, "sleep_short_repeated": 2000, "TIMER_READ": 100},
+                            "sleep_with_every_thread_busy_yielding": 1, "sleep_then_exit_immediately": 10, "sleep_short_repeated": 2000, "TIMER_READ": 100, "sleep_boundary_requests": 12,
+                            "sleep_very_long_requests_still_asleep_at_exit": 25},
                 assumptions=ASSUME_COMMON + ["CLOCK_MONOTONIC brackets each call, so load can only enlarge the measured span"])
 
 
